@@ -2,13 +2,22 @@
    TOKEN level for a sub-grammar.
 
    Stage 0  fuel monotonicity of all ten reader functions (`mono_all_holds`),
-            `enough_fuel_*`, fuel independence above 3*|toks|+c.
-   Stage 1  a token-level document grammar `doc` with its token flattening
-            `flat` and its expected tree `tree`, and the boolean
-            well-formedness predicate `wf` / `seq_wf`.
-   Stage 2  PP for single documents (`PP_expr`), for bodies of groups and
-            math regions (`PP_seq_group`, `PP_seq_math`) and for whole token
-            lists (`PP_parse_tokens`, both tolerance modes). *)
+            `enough_fuel_*`, `fuel_mono_S`, fuel independence above
+            3*|toks|+c (`fuel_independent_*`, `fuel_any_*`).
+   Stage 1  a token-level document grammar `doc` / `arg` (leaves, brace
+            groups, commands with free or fixed signature and both argument
+            passes, math regions, named environments with arguments - math
+            environments included -, list items) with its token flattening
+            `flat`, its expected tree `tree`, and the boolean well-formedness
+            predicates `wf` / `wf_arg` / `follows_ok` / `wf_seq`.
+   Stage 2  PP by induction on documents (`PP_all`: for every sufficiently
+            large fuel ...), then with explicit fuel: single elements
+            (`PP_expr`), bodies of groups and math regions (`PP_seq_group`,
+            `PP_seq_math`), whole token lists (`PP_tex_loop`,
+            `PP_parse_tokens`, both tolerance modes).
+   Then     `estr_tree`: the expected tree prints as the token texts, hence
+            `PP_print_parse_print`; examples built from real tokenizer output;
+            `_refuted` witnesses showing that the conditions are forced. *)
 From Coq Require Import List NArith ZArith Bool Lia Arith.
 From TexModel Require Import Base Tables Chars Tokenizer Tree Reader.
 From TexProofs Require Import ReaderLen ReaderTotal ReaderCons AttachProofs.
@@ -332,6 +341,29 @@ Proof.
   - apply diag_not_oof. apply (tot_all_holds f'). exact Hf.
 Qed.
 
+Lemma fuel_any_env f f' name args pos skip strict m acc toks r :
+  read_env_loop f name args pos skip strict m acc toks = Ok r ->
+  (3 * length toks + 2 <= f')%nat ->
+  read_env_loop f' name args pos skip strict m acc toks = Ok r.
+Proof.
+  intros H Hf. rewrite <- H. symmetry.
+  apply (ref_indep (fun f => read_env_loop f name args pos skip strict m acc toks)).
+  - intros g g' Hle. apply mono_env_holds. exact Hle.
+  - rewrite H. discriminate.
+  - apply diag_not_oof. apply (tot_all_holds f'). exact Hf.
+Qed.
+
+Lemma fuel_any_item f f' acc toks r :
+  read_item_loop f acc toks = Ok r -> (3 * length toks + 2 <= f')%nat ->
+  read_item_loop f' acc toks = Ok r.
+Proof.
+  intros H Hf. rewrite <- H. symmetry.
+  apply (ref_indep (fun f => read_item_loop f acc toks)).
+  - intros g g' Hle. apply mono_item_holds. exact Hle.
+  - rewrite H. discriminate.
+  - apply diag_not_oof. apply (tot_all_holds f'). exact Hf.
+Qed.
+
 (* ====================================================================== *)
 (* Stage 1: the token-level document grammar                              *)
 (* ====================================================================== *)
@@ -442,6 +474,11 @@ with tree_arg (a : arg) : expr :=
 (* the environment name as the reader computes it: the stripped string of
    the first argument of \begin *)
 Definition env_name (ng : arg) : str := strip (arg_string (tree_arg ng)).
+
+(* the mode of an environment body: math for the math environment names
+   (equation, align, ...), inherited otherwise *)
+Definition env_mm (mm : bool) (ng : arg) : bool :=
+  mm || mem_str (env_name ng) Tables.math_env_names.
 
 (* --------------------------------------------------- well-formedness *)
 
@@ -616,12 +653,12 @@ Fixpoint wf (mm : bool) (d : doc) {struct d} : bool :=
   | DEnv e b ng xargs body e2 en ng2 =>
     is_tc TEscape e && str_eqb (ttext b) s_begin &&
     wf_arg mm ng && is_brace_arg ng &&
-    negb (mem_str (env_name ng) Tables.math_env_names) && negb (mem_str (env_name ng) SK) &&
+    negb (mem_str (env_name ng) SK) &&
     cmd_shape free_sig (ng :: xargs) && forallb (wf_arg mm) xargs &&
     cmd_follow free_sig (ng :: xargs) (flat_list body ++ [e2]) &&
-    seq_wf (wf mm) follows_ok CEnv body [e2; en] &&
+    seq_wf (wf (env_mm mm ng)) follows_ok CEnv body [e2; en] &&
     is_tc TEscape e2 && str_eqb (ttext en) s_end &&
-    wf_arg mm ng2 && is_brace_arg ng2 &&
+    wf_arg (env_mm mm ng) ng2 && is_brace_arg ng2 &&
     str_eqb (arg_string (tree_arg ng2)) (env_name ng)
   | DItem e n args body =>
     negb mm && is_tc TEscape e && str_eqb (ttext n) s_item &&
@@ -709,12 +746,12 @@ Lemma wf_env mm e b ng xargs body e2 en ng2 :
   wf mm (DEnv e b ng xargs body e2 en ng2) =
   is_tc TEscape e && str_eqb (ttext b) s_begin &&
   wf_arg mm ng && is_brace_arg ng &&
-  negb (mem_str (env_name ng) Tables.math_env_names) && negb (mem_str (env_name ng) SK) &&
+  negb (mem_str (env_name ng) SK) &&
   cmd_shape free_sig (ng :: xargs) && forallb (wf_arg mm) xargs &&
   cmd_follow free_sig (ng :: xargs) (flat_list body ++ [e2]) &&
-  wf_seq mm CEnv body [e2; en] &&
+  wf_seq (env_mm mm ng) CEnv body [e2; en] &&
   is_tc TEscape e2 && str_eqb (ttext en) s_end &&
-  wf_arg mm ng2 && is_brace_arg ng2 &&
+  wf_arg (env_mm mm ng) ng2 && is_brace_arg ng2 &&
   str_eqb (arg_string (tree_arg ng2)) (env_name ng).
 Proof. reflexivity. Qed.
 Lemma wf_item mm e n args body :
@@ -1528,7 +1565,7 @@ Proof.
     apply opens_math_kind_spec in H1. destruct H1 as [H1 _].
     rewrite (escape_not_math_begin o He) in H1. discriminate H1.
   - rewrite wf_env in Hwf.
-    do 13 (apply andb_true_iff in Hwf; destruct Hwf as [Hwf _]).
+    do 12 (apply andb_true_iff in Hwf; destruct Hwf as [Hwf _]).
     apply andb_true_iff in Hwf. destruct Hwf as [_ Hb]. apply str_eqb_eq in Hb.
     exists b, (flat_args (ng :: xargs) ++ flat_list body ++ e2 :: en :: flat_arg ng2).
     split; [reflexivity|]. rewrite Hb. split; reflexivity.
@@ -1705,21 +1742,38 @@ Proof.
   intro H. apply str_eqb_eq in H. rewrite H. repeat split; vm_compute; reflexivity.
 Qed.
 
-(* \begin <name group> hands over to the environment loop *)
+(* the mode of the environment body, as read_expr computes it *)
+Definition env_mode (m : mode) (ename : str) : mode :=
+  if mem_str ename Tables.math_env_names then MMath else m.
+
+Lemma env_mode_special m ename : mode_is_special m = false ->
+  mode_is_special (env_mode m ename) = false.
+Proof. intro H. unfold env_mode. destruct (mem_str _ _); [reflexivity | exact H]. Qed.
+
+Lemma env_mode_math m ng :
+  mode_is_math (env_mode m (env_name ng)) = env_mm (mode_is_math m) ng.
+Proof.
+  unfold env_mode, env_mm. destruct (mem_str _ _).
+  - rewrite orb_true_r. reflexivity.
+  - rewrite orb_false_r. reflexivity.
+Qed.
+
+(* \begin <name group> <arguments> hands over to the environment loop *)
 Lemma read_expr_begin f skip strict m e b src a0 args' src1 :
   is_tc TEscape e = true -> mode_is_special m = false ->
   read_command f (-1) (-1) 0 strict m (b :: src) = Ok ((s_begin, a0 :: args'), src1) ->
-  mem_str (strip (arg_string a0)) Tables.math_env_names = false ->
   mem_str (strip (arg_string a0)) skip = false ->
   read_expr (S f) skip strict m (e :: b :: src) =
-  read_env_loop f (strip (arg_string a0)) args' (tpos e) skip strict m [] src1.
+  read_env_loop f (strip (arg_string a0)) args' (tpos e) skip strict
+                (env_mode m (strip (arg_string a0))) [] src1.
 Proof.
-  intros He Hm Hc Hmath Hskip. cbn [read_expr].
+  intros He Hm Hc Hskip. cbn [read_expr].
   rewrite (escape_not_math_begin e He), He, Hc. cbn [bind].
   replace (str_eqb s_begin s_item) with false by (vm_compute; reflexivity).
   replace (str_eqb s_begin s_begin) with true by (vm_compute; reflexivity).
-  rewrite Hm. cbn [negb andb]. rewrite Hmath, Hskip. reflexivity.
+  rewrite Hm. cbn [negb andb]. rewrite Hskip. reflexivity.
 Qed.
+
 
 
 (* the look-ahead in front of  \end <name group>  succeeds (any mode in which
@@ -1990,14 +2044,16 @@ Proof.
     apply andb_true_iff in Hwf. destruct Hwf as [Hwf W7b].
     apply andb_true_iff in Hwf. destruct Hwf as [Hwf W7a].
     apply andb_true_iff in Hwf. destruct Hwf as [Hwf W6].
-    apply andb_true_iff in Hwf. destruct Hwf as [Hwf W5].
     apply andb_true_iff in Hwf. destruct Hwf as [Hwf W4].
     apply andb_true_iff in Hwf. destruct Hwf as [Hwf W3].
     apply andb_true_iff in Hwf. destruct Hwf as [W1 W2].
-    apply negb_true_iff in W5, W6.
+    apply negb_true_iff in W6.
     cbn [follows_ok] in Hfol.
     destruct (begin_facts b W2) as (Hsig & Hsp & Hb).
     set (tail := e2 :: en :: flat_arg ng2 ++ rest).
+    set (m' := env_mode m (env_name ng)).
+    assert (Hm' : mode_is_special m' = false) by (apply env_mode_special; exact Hm).
+    assert (Emm : mode_is_math m' = env_mm (mode_is_math m) ng) by apply env_mode_math.
     assert (Ne2 : is_tc TMergedSpacer e2 = false)
       by (apply (is_tc_excl _ _ _ W9); discriminate).
     (* the command part of \begin *)
@@ -2014,13 +2070,14 @@ Proof.
     destruct (cmd_head_read b (ng :: xargs) (Forall_cons _ Hng Hxargs)
                 strict m (flat_list body ++ tail) Hm Hsp W7a' Wc Fb')
       as [f1 F1].
-    (* the body and \end *)
-    assert (Wb : wf_seq (mode_is_math m) CEnv body tail = true).
-    { unfold tail. change (e2 :: en :: flat_arg ng2 ++ rest)
+    (* the body and \end, in the mode of the body *)
+    assert (Wb : wf_seq (mode_is_math m') CEnv body tail = true).
+    { rewrite Emm. unfold tail. change (e2 :: en :: flat_arg ng2 ++ rest)
                      with (e2 :: [en] ++ (flat_arg ng2 ++ rest)).
       apply wf_seq_ext; [|exact W8]. split; [exact Ne2 | right; discriminate]. }
-    destruct (seq_env body Hbody (env_name ng) (map tree_arg xargs) (tpos e) skip strict m []
-                      e2 en ng2 rest Hm Hsk Wb Hng2 W9 W10 W11 W12 W13 Hfol) as [f2 F2].
+    assert (W11' : wf_arg (mode_is_math m') ng2 = true) by (rewrite Emm; exact W11).
+    destruct (seq_env body Hbody (env_name ng) (map tree_arg xargs) (tpos e) skip strict m' []
+                      e2 en ng2 rest Hm' Hsk Wb Hng2 W9 W10 W11' W12 W13 Hfol) as [f2 F2].
     fold tail in F2.
     assert (Hskip : mem_str (env_name ng) skip = false).
     { destruct (mem_str (env_name ng) skip) eqn:E; [|reflexivity].
@@ -2033,7 +2090,7 @@ Proof.
       with (flat_args (ng :: xargs) ++ flat_list body ++ tail).
     2:{ unfold tail. rewrite <- !app_assoc. rewrite <- !app_comm_cons. reflexivity. }
     rewrite (read_expr_begin f skip strict m e b _ (tree_arg ng) (map tree_arg xargs) _
-               W1 Hm E1 W5 Hskip).
+               W1 Hm E1 Hskip).
     cbn [tree]. apply (F2 f). lia.
 Qed.
 
@@ -2119,6 +2176,38 @@ Proof.
   intros Hwf Hc Hf.
   destruct (seq_math ds (PP_Forall ds) k pos strict acc c rest Hwf Hc) as [f0 F0].
   apply (fuel_any_math f0); [apply F0; lia | exact Hf].
+Qed.
+
+Lemma PP_arg_all a : PPa a.
+Proof. destruct a as [sp k o b c]. apply arg_group. apply PP_Forall. Qed.
+
+(* the body of an environment, up to and including  \end <name group> *)
+Theorem PP_seq_env ds name args pos skip strict m acc e2 en ng2 rest f :
+  mode_is_special m = false -> sub_skip SK skip ->
+  wf_seq (mode_is_math m) CEnv ds (e2 :: en :: flat_arg ng2 ++ rest) = true ->
+  is_tc TEscape e2 = true -> str_eqb (ttext en) s_end = true ->
+  wf_arg (mode_is_math m) ng2 = true -> is_brace_arg ng2 = true ->
+  str_eqb (arg_string (tree_arg ng2)) name = true -> cmd_follow free_sig [ng2] rest = true ->
+  (3 * length (flat_list ds ++ e2 :: en :: flat_arg ng2 ++ rest) + 2 <= f)%nat ->
+  read_env_loop f name args pos skip strict m acc
+                (flat_list ds ++ e2 :: en :: flat_arg ng2 ++ rest)
+  = Ok (ENamed name args (acc ++ map tree ds) pos, rest).
+Proof.
+  intros Hm Hsk Hwf He2 Hen Wng2 Kng2 Hnm Hfol Hf.
+  destruct (seq_env ds (PP_Forall ds) name args pos skip strict m acc e2 en ng2 rest
+                    Hm Hsk Hwf (PP_arg_all ng2) He2 Hen Wng2 Kng2 Hnm Hfol) as [f0 F0].
+  apply (fuel_any_env f0); [apply F0; lia | exact Hf].
+Qed.
+
+(* the body of an item, up to where it stops *)
+Theorem PP_seq_item ds acc R f :
+  wf_seq false CItem ds R = true -> item_stop_b R = true -> head_peek R ->
+  (3 * length (flat_list ds ++ R) + 2 <= f)%nat ->
+  read_item_loop f acc (flat_list ds ++ R) = Ok (acc ++ map tree ds, R).
+Proof.
+  intros Hwf Hstop Hpk Hf.
+  destruct (seq_item ds (PP_Forall ds) acc R Hwf Hstop Hpk) as [f0 F0].
+  apply (fuel_any_item f0); [apply F0; lia | exact Hf].
 Qed.
 
 (* --------------------------------------------------------- top level *)
@@ -2321,7 +2410,6 @@ Proof.
     apply andb_true_iff in Hwf. destruct Hwf as [Hwf W7b].
     apply andb_true_iff in Hwf. destruct Hwf as [Hwf W7a].
     apply andb_true_iff in Hwf. destruct Hwf as [Hwf W6].
-    apply andb_true_iff in Hwf. destruct Hwf as [Hwf W5].
     apply andb_true_iff in Hwf. destruct Hwf as [Hwf W4].
     apply andb_true_iff in Hwf. destruct Hwf as [Hwf W3].
     apply andb_true_iff in Hwf. destruct Hwf as [W1 W2].
@@ -2339,9 +2427,9 @@ Proof.
     apply Forall_app in Ht3. destruct Ht3 as [Tbody Ht4].
     inversion Ht4 as [|? ? Te2 Ht5]; subst. inversion Ht5 as [|? ? _ Tng2]; subst.
     rewrite !texts_cons, !texts_app, !texts_cons.
-    rewrite <- (Hng mm W3 P1 Tng), <- (Hng2 mm W11 P2 Tng2).
+    rewrite <- (Hng mm W3 P1 Tng), <- (Hng2 _ W11 P2 Tng2).
     rewrite <- (estr_args mm xargs Hxargs W7b P1x Txargs).
-    rewrite <- (estr_body mm CEnv body Hbody [e2; en] W8 P4 Tbody).
+    rewrite <- (estr_body _ CEnv body Hbody [e2; en] W8 P4 Tbody).
     rewrite (estr_brace_arg ng W4), (estr_brace_arg ng2 W12).
     rewrite (tok_wf_escape e Te W1), (tok_wf_escape e2 Te2 W9), W2, W10, W13.
     unfold env_name. rewrite P3.
@@ -2400,3 +2488,405 @@ Proof.
   - apply PP_parse_tokens. exact Hwf.
   - eapply estr_tree_list; eassumption.
 Qed.
+
+(* ====================================================================== *)
+(* Non-vacuity: concrete documents built from real tokenizer output       *)
+(* ====================================================================== *)
+
+Definition tok0 : token := mkt [] 0%Z TText.
+
+(* \a[x]{y \b{z}} {g $m_1$} t *)
+Definition ex1_src : str :=
+  [92;97;91;120;93;123;121;32;92;98;123;122;125;125;32;123;103;32;36;109;95;49;36;125;32;116]%N.
+Definition ex1_toks : list token := fst (tokens_of_string ex1_src).
+Definition ex1_doc : list doc :=
+  let t i := nth i ex1_toks tok0 in
+  [ DCmd (t 0%nat) (t 1%nat)
+      [ Arg None GBracket (t 2%nat) [DLeaf (t 3%nat)] (t 4%nat);
+        Arg None GBrace (t 5%nat)
+            [ DLeaf (t 6%nat);
+              DCmd (t 7%nat) (t 8%nat)
+                   [Arg None GBrace (t 9%nat) [DLeaf (t 10%nat)] (t 11%nat)] ]
+            (t 12%nat);
+        Arg (Some (t 13%nat)) GBrace (t 14%nat)
+            [ DLeaf (t 15%nat);
+              DMath MInline (t 16%nat) [DLeaf (t 17%nat)] (t 18%nat) ]
+            (t 19%nat) ];
+    DLeaf (t 20%nat) ].
+
+(* {a {b $c$}} \d[e]{f}g   -- printable: no spacer before an argument *)
+Definition ex2_src : str :=
+  [123;97;32;123;98;32;36;99;36;125;125;32;92;100;91;101;93;123;102;125;103]%N.
+Definition ex2_toks : list token := fst (tokens_of_string ex2_src).
+Definition ex2_doc : list doc :=
+  let t i := nth i ex2_toks tok0 in
+  [ DGroup (t 0%nat)
+      [ DLeaf (t 1%nat);
+        DGroup (t 2%nat)
+          [ DLeaf (t 3%nat); DMath MInline (t 4%nat) [DLeaf (t 5%nat)] (t 6%nat) ]
+          (t 7%nat) ]
+      (t 8%nat);
+    DLeaf (t 9%nat);
+    DCmd (t 10%nat) (t 11%nat)
+      [ Arg None GBracket (t 12%nat) [DLeaf (t 13%nat)] (t 14%nat);
+        Arg None GBrace (t 15%nat) [DLeaf (t 16%nat)] (t 17%nat) ];
+    DLeaf (t 18%nat) ].
+
+(* \begin{q}a\begin{r}b{c}$d$\end{r} \e{f}\end{q}z  -- nested environments *)
+Definition ex3_src : str :=
+  [92;98;101;103;105;110;123;113;125;97;92;98;101;103;105;110;123;114;125;98;123;99;125;36;100;36;92;101;110;100;123;114;125;32;92;101;123;102;125;92;101;110;100;123;113;125;122]%N.
+Definition ex3_toks : list token := fst (tokens_of_string ex3_src).
+Definition ex3_doc : list doc :=
+  let t i := nth i ex3_toks tok0 in
+  [ DEnv (t 0%nat) (t 1%nat) (Arg None GBrace (t 2%nat) [DLeaf (t 3%nat)] (t 4%nat)) []
+      [ DLeaf (t 5%nat);
+        DEnv (t 6%nat) (t 7%nat) (Arg None GBrace (t 8%nat) [DLeaf (t 9%nat)] (t 10%nat)) []
+          [ DLeaf (t 11%nat);
+            DGroup (t 12%nat) [DLeaf (t 13%nat)] (t 14%nat);
+            DMath MInline (t 15%nat) [DLeaf (t 16%nat)] (t 17%nat) ]
+          (t 18%nat) (t 19%nat) (Arg None GBrace (t 20%nat) [DLeaf (t 21%nat)] (t 22%nat));
+        DLeaf (t 23%nat);
+        DCmd (t 24%nat) (t 25%nat) [Arg None GBrace (t 26%nat) [DLeaf (t 27%nat)] (t 28%nat)] ]
+      (t 29%nat) (t 30%nat) (Arg None GBrace (t 31%nat) [DLeaf (t 32%nat)] (t 33%nat));
+    DLeaf (t 34%nat) ].
+
+(* \begin{q}\item a $b$\item[x] c {\item d}\end{q}e  -- items: two in an
+   environment (one with a bracket argument), one inside a brace group *)
+Definition ex4_src : str :=
+  [92;98;101;103;105;110;123;113;125;92;105;116;101;109;32;97;32;36;98;36;92;105;116;101;109;91;120;93;32;99;32;123;92;105;116;101;109;32;100;125;92;101;110;100;123;113;125;101]%N.
+Definition ex4_toks : list token := fst (tokens_of_string ex4_src).
+Definition ex4_doc : list doc :=
+  let t i := nth i ex4_toks tok0 in
+  [ DEnv (t 0%nat) (t 1%nat) (Arg None GBrace (t 2%nat) [DLeaf (t 3%nat)] (t 4%nat)) []
+      [ DItem (t 5%nat) (t 6%nat) []
+              [DLeaf (t 7%nat); DMath MInline (t 8%nat) [DLeaf (t 9%nat)] (t 10%nat)];
+        DItem (t 11%nat) (t 12%nat)
+              [Arg None GBracket (t 13%nat) [DLeaf (t 14%nat)] (t 15%nat)]
+              [DLeaf (t 16%nat);
+               DGroup (t 17%nat) [DItem (t 18%nat) (t 19%nat) [] [DLeaf (t 20%nat)]] (t 21%nat)] ]
+      (t 22%nat) (t 23%nat) (Arg None GBrace (t 24%nat) [DLeaf (t 25%nat)] (t 26%nat));
+    DLeaf (t 27%nat) ].
+
+(* \section[s]{t}\a{x}[y]{z}[w] \begin{tab}{ll}[h]\textbf{b}$\cup[$\end{tab}
+   -- fixed signatures (1,1) (1,0) (0,0), the second argument pass, and an
+   environment with arguments of its own (the bracket one in the second pass) *)
+Definition ex5_src : str :=
+  [92;115;101;99;116;105;111;110;91;115;93;123;116;125;92;97;123;120;125;91;121;93;123;122;125;91;119;93;32;92;98;101;103;105;110;123;116;97;98;125;123;108;108;125;91;104;93;92;116;101;120;116;98;102;123;98;125;36;92;99;117;112;91;36;92;101;110;100;123;116;97;98;125]%N.
+Definition ex5_toks : list token := fst (tokens_of_string ex5_src).
+Definition ex5_doc : list doc :=
+  let t i := nth i ex5_toks tok0 in
+  [ DCmd (t 0%nat) (t 1%nat)
+         [ Arg None GBracket (t 2%nat) [DLeaf (t 3%nat)] (t 4%nat);
+           Arg None GBrace (t 5%nat) [DLeaf (t 6%nat)] (t 7%nat) ];
+    DCmd (t 8%nat) (t 9%nat)
+         [ Arg None GBrace (t 10%nat) [DLeaf (t 11%nat)] (t 12%nat);
+           Arg None GBracket (t 13%nat) [DLeaf (t 14%nat)] (t 15%nat);
+           Arg None GBrace (t 16%nat) [DLeaf (t 17%nat)] (t 18%nat) ];
+    DLeaf (t 19%nat); DLeaf (t 20%nat); DLeaf (t 21%nat); DLeaf (t 22%nat);
+    DEnv (t 23%nat) (t 24%nat) (Arg None GBrace (t 25%nat) [DLeaf (t 26%nat)] (t 27%nat))
+         [ Arg None GBrace (t 28%nat) [DLeaf (t 29%nat)] (t 30%nat);
+           Arg None GBracket (t 31%nat) [DLeaf (t 32%nat)] (t 33%nat) ]
+         [ DCmd (t 34%nat) (t 35%nat) [Arg None GBrace (t 36%nat) [DLeaf (t 37%nat)] (t 38%nat)];
+           DMath MInline (t 39%nat) [DCmd (t 40%nat) (t 41%nat) []; DLeaf (t 42%nat)] (t 43%nat) ]
+         (t 44%nat) (t 45%nat) (Arg None GBrace (t 46%nat) [DLeaf (t 47%nat)] (t 48%nat)) ].
+
+(* \begin{equation}a_1\cup[\frac{x}{y}\end{equation}  -- a math environment *)
+Definition ex6_src : str :=
+  [92;98;101;103;105;110;123;101;113;117;97;116;105;111;110;125;97;95;49;92;99;117;112;91;92;102;114;97;99;123;120;125;123;121;125;92;101;110;100;123;101;113;117;97;116;105;111;110;125]%N.
+Definition ex6_toks : list token := fst (tokens_of_string ex6_src).
+Definition ex6_doc : list doc :=
+  let t i := nth i ex6_toks tok0 in
+  [ DEnv (t 0%nat) (t 1%nat) (Arg None GBrace (t 2%nat) [DLeaf (t 3%nat)] (t 4%nat)) []
+      [ DLeaf (t 5%nat);
+        DCmd (t 6%nat) (t 7%nat) [];
+        DLeaf (t 8%nat);
+        DCmd (t 9%nat) (t 10%nat)
+             [ Arg None GBrace (t 11%nat) [DLeaf (t 12%nat)] (t 13%nat);
+               Arg None GBrace (t 14%nat) [DLeaf (t 15%nat)] (t 16%nat) ] ]
+      (t 17%nat) (t 18%nat) (Arg None GBrace (t 19%nat) [DLeaf (t 20%nat)] (t 21%nat)) ].
+
+(* boolean form of tok_wf on the delimiters, for the examples *)
+Definition tok_wfb (t : token) : bool :=
+  forallb (fun k => match group_tok_begin k with
+                    | Some b => negb (tc_beq b (tcat t)) || str_eqb (ttext t) (group_begin k)
+                    | None => true end) [GBrace; GBracket] &&
+  forallb (fun k => match group_tok_end k with
+                    | Some b => negb (tc_beq b (tcat t)) || str_eqb (ttext t) (group_end k)
+                    | None => true end) [GBrace; GBracket] &&
+  forallb (fun k => match math_tok_begin k with
+                    | Some b => negb (tc_beq b (tcat t)) || str_eqb (ttext t) (math_begin k)
+                    | None => true end) [MInline; MDisplay; MParen; MBracket] &&
+  forallb (fun k => match math_tok_end k with
+                    | Some b => negb (tc_beq b (tcat t)) || str_eqb (ttext t) (math_end k)
+                    | None => true end) [MInline; MDisplay; MParen; MBracket] &&
+  (negb (tc_beq (tcat t) TEscape) || str_eqb (ttext t) [backslash]).
+
+Lemma tok_wfb_sound t : tok_wfb t = true -> tok_wf t.
+Proof.
+  unfold tok_wfb. intro H.
+  apply andb_true_iff in H. destruct H as [H H5].
+  apply andb_true_iff in H. destruct H as [H H4].
+  apply andb_true_iff in H. destruct H as [H H3].
+  apply andb_true_iff in H. destruct H as [H1 H2].
+  rewrite forallb_forall in H1, H2, H3, H4.
+  assert (Hor : forall (a : tc) s s', negb (tc_beq a (tcat t)) || str_eqb s s' = true ->
+                                      a = tcat t -> s = s').
+  { intros a s s' Ho E. apply orb_true_iff in Ho. destruct Ho as [Ho|Ho].
+    - apply negb_true_iff in Ho. subst a.
+      assert (X : tc_beq (tcat t) (tcat t) = true) by (apply tc_eqb_eq; reflexivity).
+      congruence.
+    - apply str_eqb_eq. exact Ho. }
+  repeat split.
+  - intros k E. assert (I : In k [GBrace; GBracket]) by (destruct k; simpl; auto).
+    specialize (H1 k I). rewrite E in H1. apply (Hor _ _ _ H1 eq_refl).
+  - intros k E. assert (I : In k [GBrace; GBracket]) by (destruct k; simpl; auto).
+    specialize (H2 k I). rewrite E in H2. apply (Hor _ _ _ H2 eq_refl).
+  - intros k E. assert (I : In k [MInline; MDisplay; MParen; MBracket])
+      by (destruct k; simpl; auto).
+    specialize (H3 k I). rewrite E in H3. apply (Hor _ _ _ H3 eq_refl).
+  - intros k E. assert (I : In k [MInline; MDisplay; MParen; MBracket])
+      by (destruct k; simpl; auto).
+    specialize (H4 k I). rewrite E in H4. apply (Hor _ _ _ H4 eq_refl).
+  - intro E. apply orb_true_iff in H5. destruct H5 as [H5|H5].
+    + apply negb_true_iff in H5. rewrite E in H5. discriminate H5.
+    + apply str_eqb_eq. exact H5.
+Qed.
+
+Lemma tok_wfb_all l : forallb tok_wfb l = true -> Forall tok_wf l.
+Proof.
+  intro H. rewrite forallb_forall in H. apply Forall_forall. intros t Ht.
+  apply tok_wfb_sound. apply H. exact Ht.
+Qed.
+
+Example ex1_is_tokenizer_output :
+  flat_list ex1_doc = fst (tokens_of_string ex1_src) /\ snd (tokens_of_string ex1_src) = TEnd.
+Proof. split; vm_compute; reflexivity. Qed.
+Example ex1_wf : wf_seq (all_skip []) false CTop ex1_doc [] = true.
+Proof. vm_compute. reflexivity. Qed.
+Example ex2_is_tokenizer_output :
+  flat_list ex2_doc = fst (tokens_of_string ex2_src) /\ snd (tokens_of_string ex2_src) = TEnd.
+Proof. split; vm_compute; reflexivity. Qed.
+Example ex2_wf :
+  wf_seq (all_skip []) false CTop ex2_doc [] = true /\ forallb printable ex2_doc = true /\
+  forallb tok_wfb (flat_list ex2_doc) = true.
+Proof. repeat split; vm_compute; reflexivity. Qed.
+Example ex3_is_tokenizer_output :
+  flat_list ex3_doc = fst (tokens_of_string ex3_src) /\ snd (tokens_of_string ex3_src) = TEnd.
+Proof. split; vm_compute; reflexivity. Qed.
+Example ex3_wf :
+  wf_seq (all_skip []) false CTop ex3_doc [] = true /\ forallb printable ex3_doc = true /\
+  forallb tok_wfb (flat_list ex3_doc) = true.
+Proof. repeat split; vm_compute; reflexivity. Qed.
+
+Example ex4_is_tokenizer_output :
+  flat_list ex4_doc = fst (tokens_of_string ex4_src) /\ snd (tokens_of_string ex4_src) = TEnd.
+Proof. split; vm_compute; reflexivity. Qed.
+Example ex4_wf :
+  wf_seq (all_skip []) false CTop ex4_doc [] = true /\ forallb printable ex4_doc = true /\
+  forallb tok_wfb (flat_list ex4_doc) = true.
+Proof. repeat split; vm_compute; reflexivity. Qed.
+
+Example ex5_is_tokenizer_output :
+  flat_list ex5_doc = fst (tokens_of_string ex5_src) /\ snd (tokens_of_string ex5_src) = TEnd.
+Proof. split; vm_compute; reflexivity. Qed.
+Example ex5_wf :
+  wf_seq (all_skip []) false CTop ex5_doc [] = true /\ forallb printable ex5_doc = true /\
+  forallb tok_wfb (flat_list ex5_doc) = true.
+Proof. repeat split; vm_compute; reflexivity. Qed.
+
+Example ex6_is_tokenizer_output :
+  flat_list ex6_doc = fst (tokens_of_string ex6_src) /\ snd (tokens_of_string ex6_src) = TEnd.
+Proof. split; vm_compute; reflexivity. Qed.
+Example ex6_wf :
+  wf_seq (all_skip []) false CTop ex6_doc [] = true /\ forallb printable ex6_doc = true /\
+  forallb tok_wfb (flat_list ex6_doc) = true.
+Proof. repeat split; vm_compute; reflexivity. Qed.
+
+(* the hypotheses of PP_expr / PP_seq_group / PP_seq_math on pieces of ex1 *)
+Example ex_PP_expr_hyps :
+  match ex1_doc with
+  | d :: ds => wf (all_skip []) false d = true /\
+               follows_ok (all_skip []) d (flat_list ds) = true /\ peek_ok d (flat_list ds)
+  | [] => False
+  end.
+Proof. repeat split; vm_compute; reflexivity. Qed.
+
+(* ... and for an item: the first item of ex4, followed by `\item[x] ...`; the
+   look-ahead there is a successful strict read of `\item[x]` *)
+Example ex_PP_expr_item_hyps :
+  let t i := nth i ex4_toks tok0 in
+  let d := DItem (t 5%nat) (t 6%nat) []
+                 [DLeaf (t 7%nat); DMath MInline (t 8%nat) [DLeaf (t 9%nat)] (t 10%nat)] in
+  let rest := skipn 11 ex4_toks in
+  wf (all_skip []) false d = true /\ follows_ok (all_skip []) d rest = true /\ peek_ok d rest.
+Proof.
+  cbv zeta. split; [vm_compute; reflexivity|]. split; [vm_compute; reflexivity|].
+  unfold peek_ok. cbn [is_item]. intros e src _ _.
+  eexists. exists 10%nat. intros f Hf.
+  apply (enough_fuel_command 10 f); [vm_compute; reflexivity | discriminate | exact Hf].
+Qed.
+Example ex_PP_seq_group_hyps :
+  let t i := nth i ex1_toks tok0 in
+  wf_seq (all_skip []) false (CGroup GBrace)
+         [DLeaf (t 6%nat); DCmd (t 7%nat) (t 8%nat)
+                                [Arg None GBrace (t 9%nat) [DLeaf (t 10%nat)] (t 11%nat)]]
+         (t 12%nat :: skipn 13 ex1_toks) = true /\
+  is_group_end GBrace (t 12%nat) = true.
+Proof. split; vm_compute; reflexivity. Qed.
+Example ex_PP_seq_math_hyps :
+  let t i := nth i ex1_toks tok0 in
+  wf_seq (all_skip []) true (CMath MInline) [DLeaf (t 17%nat)]
+         (t 18%nat :: skipn 19 ex1_toks) = true /\
+  is_math_end MInline (t 18%nat) = true.
+Proof. split; vm_compute; reflexivity. Qed.
+
+(* the hypotheses of PP_seq_env / PP_seq_item on pieces of ex4: the body of
+   the environment q, and the body of its second item (followed by \end{q}) *)
+Example ex_PP_seq_env_hyps :
+  let t i := nth i ex4_toks tok0 in
+  let ng2 := Arg None GBrace (t 24%nat) [DLeaf (t 25%nat)] (t 26%nat) in
+  match ex4_doc with
+  | DEnv _ _ ng _ body e2 en _ :: ds =>
+    wf_seq (all_skip []) false CEnv body (e2 :: en :: flat_arg ng2 ++ flat_list ds) = true /\
+    is_tc TEscape e2 = true /\ str_eqb (ttext en) s_end = true /\
+    wf_arg (all_skip []) false ng2 = true /\ is_brace_arg ng2 = true /\
+    str_eqb (arg_string (tree_arg ng2)) (env_name ng) = true /\
+    cmd_follow free_sig [ng2] (flat_list ds) = true
+  | _ => False
+  end.
+Proof. repeat split; vm_compute; reflexivity. Qed.
+Example ex_PP_seq_item_hyps :
+  let t i := nth i ex4_toks tok0 in
+  let body := [DLeaf (t 16%nat);
+               DGroup (t 17%nat) [DItem (t 18%nat) (t 19%nat) [] [DLeaf (t 20%nat)]] (t 21%nat)] in
+  let R := skipn 22 ex4_toks in
+  wf_seq (all_skip []) false CItem body R = true /\ item_stop_b R = true /\ head_peek R.
+Proof.
+  cbv zeta. split; [vm_compute; reflexivity|]. split; [vm_compute; reflexivity|].
+  intros e src _ _. eexists. exists 10%nat. intros f Hf.
+  apply (enough_fuel_command 10 f); [vm_compute; reflexivity | discriminate | exact Hf].
+Qed.
+
+(* the conditions are forced: dropping the follow condition makes the
+   statement false.  `\a{x}` read as "command without arguments, then a brace
+   group": the reader attaches the group.  `\a{x}[y]` read as "command with
+   one brace argument, then three text leaves": the second pass attaches the
+   bracket group. *)
+Definition bad1_src : str := [92;97;123;120;125]%N.                 (* \a{x} *)
+Definition bad1_doc : list doc :=
+  let t i := nth i (fst (tokens_of_string bad1_src)) tok0 in
+  [ DCmd (t 0%nat) (t 1%nat) []; DGroup (t 2%nat) [DLeaf (t 3%nat)] (t 4%nat) ].
+Definition bad2_src : str := [92;97;123;120;125;91;121;93]%N.       (* \a{x}[y] *)
+
+Theorem PP_without_follow_refuted :
+  exists ds, forallb (wf (all_skip []) false) ds = true /\
+             parse_tokens (flat_list ds) true [] <> Ok (ERoot (map tree ds)).
+Proof. exists bad1_doc. split; [vm_compute; reflexivity | vm_compute; discriminate]. Qed.
+
+(* the brace loop did stop after `{x}` (the next token is not `{`), and still
+   "one brace argument, then three text leaves" is not what is read: a `[`
+   directly after the last first-pass brace argument belongs to the command
+   (second pass); the follow condition excludes it as a leaf *)
+Theorem PP_first_pass_follow_only_refuted :
+  exists e n args ds,
+    wf (all_skip []) false (DCmd e n args) = true /\
+    forallb (wf (all_skip []) false) ds = true /\
+    existsb is_brace_arg args = true /\ stopsb TGroupBegin (flat_list ds) = true /\
+    parse_tokens (flat_list (DCmd e n args :: ds)) true []
+    <> Ok (ERoot (map tree (DCmd e n args :: ds))).
+Proof.
+  pose (t i := nth i (fst (tokens_of_string bad2_src)) tok0).
+  exists (t 0%nat), (t 1%nat), [Arg None GBrace (t 2%nat) [DLeaf (t 3%nat)] (t 4%nat)],
+         [DLeaf (t 5%nat); DLeaf (t 6%nat); DLeaf (t 7%nat)].
+  repeat split; try (vm_compute; reflexivity). vm_compute. discriminate.
+Qed.
+
+(* fixed signatures.  `\section{t}[x]` read as "one brace argument, then
+   leaves": the optional count is not used up, so the second pass attaches
+   [x].  `\textbf x` read as "no argument, then a leaf": a required argument
+   that is not a group is taken as a bare token (and re-braced). *)
+Definition bad5_src : str := [92;115;101;99;116;105;111;110;123;116;125;91;120;93]%N.
+Definition bad5_doc : list doc :=
+  let t i := nth i (fst (tokens_of_string bad5_src)) tok0 in
+  [ DCmd (t 0%nat) (t 1%nat) [Arg None GBrace (t 2%nat) [DLeaf (t 3%nat)] (t 4%nat)];
+    DLeaf (t 5%nat); DLeaf (t 6%nat); DLeaf (t 7%nat) ].
+Definition bad6_src : str := [92;116;101;120;116;98;102;32;120]%N.
+Definition bad6_doc : list doc :=
+  let t i := nth i (fst (tokens_of_string bad6_src)) tok0 in
+  [ DCmd (t 0%nat) (t 1%nat) []; DLeaf (t 2%nat) ].
+Theorem PP_fixed_signature_refuted :
+  (flat_list bad5_doc = fst (tokens_of_string bad5_src) /\
+   parse_tokens (flat_list bad5_doc) true [] <> Ok (ERoot (map tree bad5_doc))) /\
+  (flat_list bad6_doc = fst (tokens_of_string bad6_src) /\
+   parse_tokens (flat_list bad6_doc) true [] <> Ok (ERoot (map tree bad6_doc))).
+Proof.
+  repeat split; try (vm_compute; reflexivity); vm_compute; discriminate.
+Qed.
+
+(* \item in math mode is an AssertionError: `$\item a$` *)
+Definition bad3_src : str := [36;92;105;116;101;109;32;97;36]%N.
+Definition bad3_doc : list doc :=
+  let t i := nth i (fst (tokens_of_string bad3_src)) tok0 in
+  [ DMath MInline (t 0%nat) [DItem (t 1%nat) (t 2%nat) [] [DLeaf (t 3%nat)]] (t 4%nat) ].
+Theorem PP_item_in_math_refuted :
+  flat_list bad3_doc = fst (tokens_of_string bad3_src) /\
+  parse_tokens (flat_list bad3_doc) true [] = Err AssertionError /\
+  parse_tokens (flat_list bad3_doc) false [] = Err AssertionError.
+Proof. repeat split; vm_compute; reflexivity. Qed.
+
+(* ... also inside a math environment: \begin{equation}\item a\end{equation} *)
+Definition bad7_src : str :=
+  [92;98;101;103;105;110;123;101;113;117;97;116;105;111;110;125;92;105;116;101;109;32;97;92;101;110;100;123;101;113;117;97;116;105;111;110;125]%N.
+Definition bad7_doc : list doc :=
+  let t i := nth i (fst (tokens_of_string bad7_src)) tok0 in
+  [ DEnv (t 0%nat) (t 1%nat) (Arg None GBrace (t 2%nat) [DLeaf (t 3%nat)] (t 4%nat)) []
+      [ DItem (t 5%nat) (t 6%nat) [] [DLeaf (t 7%nat)] ]
+      (t 8%nat) (t 9%nat) (Arg None GBrace (t 10%nat) [DLeaf (t 11%nat)] (t 12%nat)) ].
+Theorem PP_item_in_math_env_refuted :
+  flat_list bad7_doc = fst (tokens_of_string bad7_src) /\
+  parse_tokens (flat_list bad7_doc) true [] = Err AssertionError.
+Proof. split; vm_compute; reflexivity. Qed.
+
+(* the follow condition after `\end{name}` cannot simply be dropped: read_env
+   looks ahead at `\end` with read_command, which reads the groups that follow
+   as arguments - in the mode of the environment body.  After a math
+   environment a brace group that follows directly is thus read (and thrown
+   away) in math mode: `\begin{equation}x\end{equation}{\item a}` raises
+   AssertionError in both tolerance modes, although each element is
+   well-formed and the group stands outside the environment
+   (`\begin{equation}x\end{equation} t{\item a}` parses). *)
+Definition bad8_src : str :=
+  [92;98;101;103;105;110;123;101;113;117;97;116;105;111;110;125;120;92;101;110;100;123;101;113;117;97;116;105;111;110;125;123;92;105;116;101;109;32;97;125]%N.
+Definition bad8_doc : list doc :=
+  let t i := nth i (fst (tokens_of_string bad8_src)) tok0 in
+  [ DEnv (t 0%nat) (t 1%nat) (Arg None GBrace (t 2%nat) [DLeaf (t 3%nat)] (t 4%nat)) []
+      [ DLeaf (t 5%nat) ]
+      (t 6%nat) (t 7%nat) (Arg None GBrace (t 8%nat) [DLeaf (t 9%nat)] (t 10%nat));
+    DGroup (t 11%nat) [DItem (t 12%nat) (t 13%nat) [] [DLeaf (t 14%nat)]] (t 15%nat) ].
+Theorem PP_end_follow_refuted :
+  flat_list bad8_doc = fst (tokens_of_string bad8_src) /\
+  forallb (wf (all_skip []) false) bad8_doc = true /\
+  parse_tokens (flat_list bad8_doc) true [] = Err AssertionError /\
+  parse_tokens (flat_list bad8_doc) false [] = Err AssertionError.
+Proof. repeat split; vm_compute; reflexivity. Qed.
+
+(* an item as the last element of a BRACKET group does not stop at `]`: it
+   swallows the closer and the group is left unclosed: `\a[\item x]` *)
+Definition bad4_src : str := [92;97;91;92;105;116;101;109;32;120;93]%N.
+Definition bad4_doc : list doc :=
+  let t i := nth i (fst (tokens_of_string bad4_src)) tok0 in
+  [ DCmd (t 0%nat) (t 1%nat)
+         [Arg None GBracket (t 2%nat) [DItem (t 3%nat) (t 4%nat) [] [DLeaf (t 5%nat)]] (t 6%nat)] ].
+Theorem PP_item_in_bracket_group_refuted :
+  flat_list bad4_doc = fst (tokens_of_string bad4_src) /\
+  parse_tokens (flat_list bad4_doc) true [] = Err TypeError /\
+  parse_tokens (flat_list bad4_doc) false [] <> Ok (ERoot (map tree bad4_doc)).
+Proof. repeat split; try (vm_compute; reflexivity). vm_compute. discriminate. Qed.
+
+(* an environment whose name the user asked to be read verbatim is NOT read
+   as the grammar says: the condition on SK is forced *)
+Definition s_q : str := [113]%N.
+Theorem PP_env_in_skip_list_refuted :
+  wf_seq (all_skip []) false CTop ex3_doc [] = true /\
+  parse_tokens (flat_list ex3_doc) true [s_q] <> Ok (ERoot (map tree ex3_doc)).
+Proof. split; [vm_compute; reflexivity | vm_compute; discriminate]. Qed.
